@@ -1563,8 +1563,7 @@ static void sig_cb(void *cookie)
 	ob = &objs[o];
 	self_obj = o;
 	ob->entries++;
-	if (ob->posts == 0)
-		mon_viol("C10", "entry-without-delivery", "sig", "signal interest #%d handler invoked although signal %d was never raised", o, ob->signum);
+	/* (a run without a raise of its own is legitimate: an exclusive interest that is unregistered hands its noted delivery over; C10 is judged by sig.c) */
 	if (winding)
 		goto out;
 	if (rng_pct(&R, 25)) {
